@@ -188,3 +188,9 @@ func VerifGroupForkSwitch(ancestor *types.Group, branch []*types.Group) bool {
 func VerifWrapSyncLogger(wrap func(log.Logger) log.Logger) {
 	syncLogger = wrap(syncLogger)
 }
+
+// VerifReorgMark reports whether the intent mark of a multi-block removal is present.
+func VerifReorgMark() bool {
+	m, _ := blockChainImpl.hashDB.Get([]byte(reorgMark))
+	return m != nil
+}
